@@ -461,8 +461,14 @@ func waitExplore(t *testing.T, run *mc.Run, cov *mc.Coverage, maxLen int) {
 	rec = func(seq []string) {
 		if len(seq) > 0 {
 			n++
-			got, want := runWait(t, seq)
+			got, want := runWait(t, seq, false)
 			distinct[strings.Join(want, ",")] = true
+			// the same events with a caller that looks at the channel only after the last of them (it was busy
+			// meanwhile): what it then finds must be what the eager caller found
+			if lg, lw := runWait(t, seq, true); lg[len(lg)-1] != lw[len(lw)-1] {
+				run.Violation("C18:wait:late-receiver:"+lw[len(lw)-1]+"-vs-"+lg[len(lg)-1], map[string]any{"kind": "wait", "events": seq, "late": true},
+					fmt.Sprintf("WaitForReady with a,b registered; events %v, the caller receives only afterwards: it finds %v, expected %v", seq, lg[len(lg)-1], lw[len(lw)-1]))
+			}
 			if strings.Join(got, ",") != strings.Join(want, ",") {
 				run.Violation("C18:wait:"+want[len(want)-1]+"-vs-"+got[len(got)-1], map[string]any{"kind": "wait", "events": seq},
 					fmt.Sprintf("WaitForReady with a,b registered; events %v: channel states after each event %v, expected %v", seq, got, want))
@@ -498,7 +504,7 @@ func contains(s []string, x string) bool {
 	return false
 }
 
-func runWait(t *testing.T, seq []string) (got, want []string) {
+func runWait(t *testing.T, seq []string, late bool) (got, want []string) {
 	synctest.Test(t, func(t *testing.T) {
 		h := health.NewHealth()
 		h.AddReadiness("a")
@@ -510,7 +516,7 @@ func runWait(t *testing.T, seq []string) (got, want []string) {
 		ready := map[string]bool{}
 		state := "pending"
 		obs := "pending"
-		for _, e := range seq {
+		for ei, e := range seq {
 			switch e {
 			case "ra":
 				h.OnReady("a")
@@ -533,7 +539,7 @@ func runWait(t *testing.T, seq []string) (got, want []string) {
 				}
 			}
 			synctest.Wait()
-			if obs == "pending" {
+			if obs == "pending" && (!late || ei == len(seq)-1) {
 				select {
 				case v, ok := <-ch:
 					if !ok {
@@ -569,6 +575,7 @@ func runC18(t *testing.T, run *mc.Run) int {
 			Program string   `json:"program"`
 			Choices []int    `json:"choices"`
 			Events  []string `json:"events"`
+			Late    bool     `json:"late"`
 		}
 		if _, err := mc.LoadReplay(run.Replay, &rp); err != nil {
 			fmt.Println(err)
@@ -576,8 +583,11 @@ func runC18(t *testing.T, run *mc.Run) int {
 		}
 		switch rp.Kind {
 		case "wait":
-			got, want := runWait(t, rp.Events)
+			got, want := runWait(t, rp.Events, rp.Late)
 			fmt.Println("got ", got, "\nwant", want)
+			if rp.Late {
+				got, want = got[len(got)-1:], want[len(want)-1:]
+			}
 			if strings.Join(got, ",") != strings.Join(want, ",") {
 				fmt.Printf("VIOLATION property=C18 replay=%s\n", run.Replay)
 				return 1
@@ -612,7 +622,7 @@ func runC18(t *testing.T, run *mc.Run) int {
 		return 0
 	}
 	cov := mc.Coverage{Level: "model_checking", Exhaustive: true, Extra: map[string]any{}}
-	cov.Rule = "(a) breadth-first search to closure over add/ready for 3 component names on the real Health, the real readyz handler queried after every transition under every map iteration order; (b) every lock-granularity interleaving of 3 real goroutines (registrations, ready-marks, status requests) under the cooperative scheduler, each outcome compared with the outcomes of all sequential merges; (c) every sequence of {ready marks, re-registration, cancel, clock tick} up to the length bound delivered to the real WaitForReady goroutine in a synctest bubble. distinct_nontrivial = complete concurrent executions with >=1 preemption"
+	cov.Rule = "(a) breadth-first search to closure over add/ready for 3 component names on the real Health, the real readyz handler queried after every transition under every map iteration order; (b) every lock-granularity interleaving of 3 real goroutines (registrations, ready-marks, status requests) under the cooperative scheduler, each outcome compared with the outcomes of all sequential merges; (c) every sequence of {ready marks, re-registration, cancel, clock tick} up to the length bound delivered to the real WaitForReady goroutine in a synctest bubble, once with a caller that polls the channel after every event and once with a caller that looks only after the last event. distinct_nontrivial = complete concurrent executions with >=1 preemption"
 	searchSequential(run, &cov)
 	searchConcurrent(run, &cov)
 	ml := 5
